@@ -956,3 +956,92 @@ Proof.
   - eapply spec_covers; eauto.
   - intros. eapply spec_unique; eauto.
 Qed.
+
+(* the walk of flush terminates: every step either takes a posting or moves the window forward *)
+Lemma flush_loop_total from to dur since sow empty hi : dur_ok dur -> forall fuel st s u posts cur saw,
+  stable st from to dur since s u -> s < u ->
+  date_sorted posts ->
+  Forall (fun p => s <= p_date p <= hi /\ past to (p_date p) = false) posts ->
+  (length posts + Z.to_nat (hi - s) < fuel)%nat ->
+  exists rows, flush_loop fuel sow empty st posts cur saw = Ok rows.
+Proof.
+  intros Hd. induction fuel as [|fuel IH]; intros st s u posts cur saw Hst Hsu Hsort Hall Hfuel; [lia|].
+  cbn [flush_loop]. destruct posts as [|p rest]; [eexists; reflexivity|].
+  pose proof (Forall_inv Hall) as [Hps Hpp]. pose proof (Forall_inv_tail Hall) as Hall'.
+  unfold within_period. rewrite (find_period_stable _ _ _ _ _ _ _ _ _ _ _ _ Hst Hpp).
+  destruct (Z.ltb_spec (p_date p) s) as [|_]; [lia|].
+  destruct (Z.ltb_spec (p_date p) (clip to u)) as [Hin|Hout]; cbn [bind].
+  - apply (IH st s u rest); [exact Hst|exact Hsu|inversion Hsort; assumption|exact Hall'|cbn [length] in Hfuel; lia].
+  - assert (Hpu : past to u = false).
+    { destruct (past to u) eqn:E; [|reflexivity]. destruct (past_true_clip _ _ E) as (t & -> & Hle & Hc).
+      unfold past in Hpp. apply Z.leb_gt in Hpp. lia. }
+    rewrite (past_false_clip _ _ Hpu) in Hout.
+    destruct (stable_increment _ _ _ _ _ _ _ Hst) as (st' & Hinc & Hnext). rewrite Hpu in Hnext.
+    rewrite Hinc. cbn [bind].
+    destruct (IH st' u (add_dur dur u) (p :: rest) [] false Hnext (add_dur_lt dur u Hd) Hsort) as (rows' & ->).
+    + constructor; [split; [lia|exact Hpp]|].
+      inversion Hsort as [|? ? _ Hle]; subst.
+      rewrite Forall_forall in *. intros q Hq. specialize (Hle q Hq). destruct (Hall' q Hq) as [? ?].
+      split; [lia|assumption].
+    + cbn [length] in *. lia.
+    + cbn [bind]. eexists; reflexivity.
+Qed.
+
+Lemma iter_dur_ge0 dur k z : dur_ok dur -> z <= iter_dur dur k z.
+Proof. intros Hd. pose proof (iter_dur_ge dur k z Hd). lia. Qed.
+
+(* flush returns (no exception, no exhaustion) once the fuel covers the postings and the days
+   between the initial start and the last posting *)
+Lemma flush_posts_total sow align empty dur from to posts fuel date hi :
+  dur_ok dur -> 0 <= sow < 7 ->
+  (forall f t, from = Some f -> to = Some t -> f < t) ->
+  date_sorted posts ->
+  Forall (fun p => (forall f, from = Some f -> f <= p_date p) /\ past to (p_date p) = false /\ p_date p <= hi) posts ->
+  first_date from posts = Some date ->
+  (Z.to_nat (date - initial_start sow align (init dur from to) date) < fuel)%nat ->
+  (length posts + Z.to_nat (hi - initial_start sow align (init dur from to) date) < fuel)%nat ->
+  exists rows, flush_posts fuel sow align empty (init dur from to) posts = Ok rows.
+Proof.
+  intros Hd Hs Hft Hsort Hall Hdate Hfuel Hfuel2.
+  assert (Hfrom : forall f, from = Some f -> date = f).
+  { intros f ->. cbn in Hdate. congruence. }
+  assert (Hp : past to date = false).
+  { destruct from as [f|].
+    - cbn in Hdate. injection Hdate as <-. unfold past. destruct to as [t|] eqn:Et; [|reflexivity].
+      apply Z.leb_gt. eapply Hft; reflexivity.
+    - cbn in Hdate. destruct posts as [|p rest]; [discriminate|]. injection Hdate as <-.
+      apply (Forall_inv Hall). }
+  pose proof (initial_start_le sow align dur from to date Hd Hs) as Hs0.
+  destruct (stabilize_init sow align dur from to date fuel Hd Hfrom Hp Hs0 Hfuel)
+    as (st & k & a & Hst & Ha & Hb & Hstable).
+  assert (Hfuel1 : exists f', fuel = S f') by (destruct fuel; [lia|eauto]).
+  destruct Hfuel1 as (f' & ->).
+  assert (Hfs : first_start' from a <= date).
+  { unfold first_start'. destruct from as [f|]; [pose proof (Hfrom f eq_refl)|]; lia. }
+  assert (Hfp : find_period (S f') sow (init dur from to) date align true = Ok (true, st)).
+  { unfold find_period. rewrite Hst. cbn [bind]. destruct Hstable as (nx & -> & _). cbn [i_finish i_start i_eod].
+    assert ((match to with Some f => f <? date | None => false end) = false) as ->.
+    { unfold past in Hp. destruct to as [t|]; [|reflexivity]. apply Z.leb_gt in Hp. apply Z.ltb_ge. lia. }
+    destruct (Z.ltb_spec date (first_start' from a)); [lia|].
+    pose proof (clip_gt to (add_dur dur a) date ltac:(lia) Hp).
+    destruct (Z.ltb_spec date (clip to (add_dur dur a))); [reflexivity|lia]. }
+  assert (Hrun : flush_posts (S f') sow align empty (init dur from to) posts
+                 = flush_loop (S f') sow empty st posts [] false).
+  { unfold flush_posts. unfold init at 1. cbn [i_begin i_start i_from]. fold (init dur from to).
+    destruct from as [f|].
+    - cbn in Hdate. injection Hdate as Hdate. subst date. rewrite Hfp. reflexivity.
+    - cbn in Hdate. destruct posts as [|p rest]; [discriminate|]. injection Hdate as Hdate. subst date.
+      rewrite Hfp. reflexivity. }
+  rewrite Hrun.
+  pose proof (iter_dur_ge0 dur k (initial_start sow align (init dur from to) date) Hd) as Hge. rewrite <- Ha in Hge.
+  assert (Hfa : a <= first_start' from a) by (unfold first_start'; destruct from; lia).
+  apply (flush_loop_total from to dur (since_of from) sow empty hi Hd (S f') st (first_start' from a) (add_dur dur a)
+           posts [] false Hstable ltac:(lia) Hsort).
+  - rewrite Forall_forall in *. intros p Hin. destruct (Hall p Hin) as (Hf & Hpp & Hhi). split; [|exact Hpp].
+    split; [|exact Hhi]. unfold first_start'. destruct from as [f|].
+    + specialize (Hf f eq_refl). rewrite (Hfrom f eq_refl) in *. lia.
+    + cbn in Hdate. destruct posts as [|p0 rest]; [discriminate|]. injection Hdate as <-.
+      destruct Hin as [<-|Hin]; [lia|]. inversion Hsort as [|? ? _ Hle]; subst.
+      rewrite Forall_forall in Hle. specialize (Hle p Hin). lia.
+  - lia.
+Qed.
